@@ -20,6 +20,7 @@ import (
 	"log"
 
 	"github.com/EliCDavis/polyform/modeling"
+	"github.com/EliCDavis/polyform/modeling/primitives"
 
 	"verif/harness/core"
 	"verif/harness/meshlib"
@@ -299,7 +300,7 @@ func run(c *core.Ctx) {
 	if th {
 		maxV = 4
 	}
-	ops := ml.Alphabet
+	ops := allOps()
 	c.Bound("operations", len(ops))
 	type sub struct {
 		mixes            []string
@@ -417,7 +418,7 @@ func replay(c *core.Ctx) {
 		sh := ml.ShapeOfSpec(s)
 		meshes := []modeling.Mesh{}
 		for i, call := range cs.Ops {
-			op, ok := ml.ByName(call.Op)
+			op, ok := opByName(call.Op)
 			if !ok {
 				c.HarnessError("unknown operation %q", call.Op)
 				return
@@ -434,11 +435,66 @@ func replay(c *core.Ctx) {
 			}
 			// later steps: each result of the prefix is rebuilt freshly (the prefix is re-run per result)
 			for ri := range meshes {
-				prefix, _ := ml.ByName(cs.Ops[0].Op)
+				prefix, _ := opByName(cs.Ops[0].Op)
 				mid, _ := prefix.Apply(s.Build(), cs.Ops[0].P)
 				sh2 := ml.ShapeOfSnap(meshlib.Snapshot(mid[ri]))
 				k.applyOne("replay", mid[ri], sh2, step{op, call.P}, true, cs)
 			}
 		}
 	}
+}
+
+// ---------------------------------------------------------------------------------------------
+// operations of this check only: generators and operations interleaved
+// ---------------------------------------------------------------------------------------------
+
+// A generator's output is handed to an operation and the generator is asked again afterwards: the
+// second answer is "a mesh returned by a geometry generator" like the first (generators that hand out
+// shared tables — the welded cube's index list — make an operation that writes into its operand
+// visible here).
+func extraOps() []ml.Op {
+	gen := []func() modeling.Mesh{
+		func() modeling.Mesh { return primitives.UnitCube() },
+		func() modeling.Mesh { return primitives.Cube{Height: 2, Width: 3, Depth: 4}.Welded() },
+		func() modeling.Mesh { return primitives.UVSphere(1, 3, 4) },
+		func() modeling.Mesh {
+			return primitives.Cylinder{Sides: 5, Height: 1, Radius: 0.5}.ToMesh()
+		},
+	}
+	one := func(s ml.Shape, thorough bool) []ml.Params { return []ml.Params{{}} }
+	return []ml.Op{
+		{Name: "Mesh.Append(generated solid); generate again", Site: "modeling.Mesh.Append", Variants: one,
+			Apply: func(m modeling.Mesh, p ml.Params) ([]modeling.Mesh, error) {
+				var out []modeling.Mesh
+				for _, g := range gen {
+					operand := g()
+					out = append(out, m.Append(operand), operand, g())
+				}
+				return out, nil
+			}},
+		{Name: "generated solid.Append(Mesh); generate again", Site: "modeling.Mesh.Append", Variants: one,
+			Apply: func(m modeling.Mesh, p ml.Params) ([]modeling.Mesh, error) {
+				var out []modeling.Mesh
+				for _, g := range gen {
+					out = append(out, g().Append(m), g())
+				}
+				return out, nil
+			}},
+	}
+}
+
+func allOps() []ml.Op {
+	return append(append([]ml.Op{}, ml.Alphabet...), extraOps()...)
+}
+
+func opByName(name string) (ml.Op, bool) {
+	if op, ok := ml.ByName(name); ok {
+		return op, true
+	}
+	for _, op := range extraOps() {
+		if op.Name == name {
+			return op, true
+		}
+	}
+	return ml.Op{}, false
 }
